@@ -229,7 +229,13 @@ func c19Mint() {
 // configYAML renders the node's complete configuration for the current (rule set, touch, unsafe) state: the E4 default
 // configuration with the firewall section REPLACED (vnode.reload can only append to the default allow-all rules) and the
 // node certificate with / without its unsafe network.
+var c19YAMLCache sync.Map // (rule set, touch, unsafe) -> rendered configuration (pure function; rendering dominates otherwise)
+
 func (w *c19World) configYAML() string {
+	ck := [3]int{w.rs, map[bool]int{true: 1}[w.touch], map[bool]int{true: 1}[w.unsafe]}
+	if v, ok := c19YAMLCache.Load(ck); ok {
+		return v.(string)
+	}
 	sp := c19Spec()
 	un := sp.Unsafe
 	if !w.unsafe {
@@ -243,6 +249,7 @@ func (w *c19World) configYAML() string {
 	if err != nil {
 		w.c.Broken("yaml: %v", err)
 	}
+	c19YAMLCache.Store(ck, string(b))
 	return string(b)
 }
 
@@ -264,13 +271,8 @@ func c19NewWorld(c *mc.Check, tb testing.TB, alpha []c19Pkt, fullNode, useCache 
 		// minimal assembly: the two objects Interface.reloadFirewall works on, wired to a real config.C
 		l := vNewLogger("me")
 		w.cfg = config.NewC(l)
-		// (starts, like the full node, from the all-open default rules of the E4 configuration)
-		pk, sp := vGetPKI(), c19Spec()
-		b, err := yaml.Marshal(vDefaultConfig(pk.leafFor(sp.Name, sp.Networks, sp.Unsafe, nil, cert.Version2), pk.caPEM, c19UDP))
-		if err != nil {
-			c.Broken("yaml: %v", err)
-		}
-		if err := w.cfg.LoadString(string(b)); err != nil {
+		// (starts directly with the initial rule set: rulesVersion 0 without any set-up reload)
+		if err := w.cfg.LoadString(w.configYAML()); err != nil {
 			c.Broken("config: %v", err)
 		}
 		pki, err := NewPKIFromConfig(l, w.cfg) // registers the PKI reload callback first, as Main() does
@@ -284,17 +286,18 @@ func c19NewWorld(c *mc.Check, tb testing.TB, alpha []c19Pkt, fullNode, useCache 
 		w.f = &Interface{firewall: fw, pki: pki, l: l}
 		w.cfg.RegisterReloadCallback(w.f.reloadFirewall)
 	}
-	// set-up (not part of the judged history): install the initial rule set through the real reload path, then start the
-	// version counter at 0 with an empty table
-	w.reload()
-	fw := w.f.firewall
-	if got := fw.rulesVersion; got != 1 {
-		c.Broken("set-up reload did not install a new firewall (rulesVersion=%d)", got)
+	if fullNode {
+		// set-up (not part of the judged history): the E4 default configuration is all-open and can only be appended to, so
+		// the initial rule set is installed through the real reload path and the version counter put back to 0
+		w.reload()
+		if got := w.f.firewall.rulesVersion; got != 1 {
+			c.Broken("set-up reload did not install a new firewall (rulesVersion=%d)", got)
+		}
+		w.f.firewall.rulesVersion = 0
 	}
-	if len(fw.Conntrack.Conns) != 0 {
-		c.Broken("conntrack not empty after set-up")
+	if fw := w.f.firewall; fw.rulesVersion != 0 || len(fw.Conntrack.Conns) != 0 || fw.GetRuleHash() == "" {
+		c.Broken("unexpected initial firewall state: version=%d conns=%d", fw.rulesVersion, len(fw.Conntrack.Conns))
 	}
-	fw.rulesVersion = 0
 	pk := vGetPKI()
 	mine := w.f.pki.getCertState().myVpnNetworksTable
 	for i, ps := range []struct{ name, net string }{{"p1", "10.0.0.2/24"}, {"p2", "10.0.0.3/24"}} {
@@ -672,8 +675,8 @@ func TestVerifC19(t *testing.T) {
 		depth    int
 	}
 	boxes := []boxT{
-		{"minimal assembly", false, false, mc.Pick(c, 5, 7)},
 		{"full node", true, false, mc.Pick(c, 3, 4)},
+		{"minimal assembly", false, false, mc.Pick(c, 5, 7)},
 	}
 	if c.Thorough() {
 		boxes = append(boxes, boxT{"minimal assembly + routine cache", false, true, 6})
